@@ -253,7 +253,7 @@ func genWire(r *Rand, g GenCfg) Plan {
 			add(XStep{Op: "sig", Tok: v % 2, Kind: "sig_shape", Val: v})
 		}
 		if g.Index%4 == 2 {
-			add(XStep{Op: "sig", Tok: r.Intn(2), Kind: "churn", Val: r.Intn(3)})
+			add(XStep{Op: "sig", Tok: r.Intn(2), Kind: "churn", Val: Pick(r, []int{0, 1, 2, 2})})
 		}
 		for t := 0; t < 2; t++ {
 			for _, f := range fields(p.Tokens[t].Kind) {
@@ -408,8 +408,12 @@ func genWire(r *Rand, g GenCfg) Plan {
 		}
 	}
 	if focus == "C07" {
-		// C07 rides on the two round trips above; nothing else is needed
+		// C07 rides on the two round trips above ... and, in one run of 64, on a long-lived process:
+		// three hundred other principals issue and decode tokens, then the first token is read again
 		_ = fmt.Sprint
+		if g.Index%64 == 9 {
+			add(XStep{Op: "sig", Tok: 0, Kind: "churn", Val: 2})
+		}
 	}
 	return p
 }
